@@ -21,6 +21,8 @@ def jobs(tier):
                        functions=["stride_flatten"], bounds="count 1..%d per dimension, start/stride < 2^20 symbolic; element size, inner "
                                                             "dimension length, record size concrete per job" % cmax,
                        findings=["C01_flatten_1d_recvar"] if (nd == 1 and rec) else []))
+    # NOTE: harness/C01/dtype.c (ncmpii_dtype_decode on captured derived types) is kept in the tree but NOT registered: the
+    # recursive decoder with its per-combiner allocation does not terminate in the solver within the tier budget (see DESIGN.md).
     return out
 
 
